@@ -2,6 +2,7 @@
 
 use super::common::*;
 use crate::generate::{Profile, history_strategy};
+use crate::ir::History;
 use crate::runner::*;
 use std::time::Instant;
 
@@ -41,10 +42,85 @@ fn explore_with(
     finish(prop, tier, seed, "exploration", rule_text, ASSUME_HIST, &merged, t0.elapsed().as_secs_f64(), "lsv")
 }
 
+/// Texts of several MiB (the generated histories stay far below the shim's 1 MiB refusal limit): every way of
+/// growing, inserting into, shrinking and sharing them, with the refusal limit raised to 256 MiB.
+fn large_text_histories() -> Vec<History> {
+    use crate::ir::*;
+    let mut out = Vec::new();
+    for &n in &[1_048_000usize, 1_200_000, 3_000_000] {
+        for &add in &[1usize, 70_000, 200_000, 600_000] {
+            for variant in 0..6u8 {
+                let big = Text::Repeat { n, unit: 'L' };
+                let grow = Text::Repeat { n: add, unit: 'g' };
+                let mut ops = vec![Op::PushStr { slot: 0, text: big, try_: false }];
+                match variant {
+                    0 => ops.push(Op::PushStr { slot: 0, text: grow, try_: false }),
+                    1 => {
+                        ops.push(Op::Clone { slot: 1, from: 0, via: CloneVia::Clone });
+                        ops.push(Op::PushStr { slot: 0, text: grow, try_: true });
+                    }
+                    2 => ops.push(Op::InsertStr { slot: 0, idx: Idx::Raw(n / 2), text: grow, try_: false }),
+                    3 => {
+                        ops.push(Op::Reserve { slot: 0, n: Size::Abs(add), try_: false });
+                        ops.push(Op::AddAssign { slot: 0, text: grow });
+                    }
+                    4 => {
+                        ops.push(Op::Clone { slot: 1, from: 0, via: CloneVia::Clone });
+                        ops.push(Op::Truncate { slot: 0, n: Idx::Raw(n / 3), try_: false });
+                        ops.push(Op::Add { slot: 0, text: grow });
+                        ops.push(Op::ShrinkToFit { slot: 0, try_: false });
+                    }
+                    _ => {
+                        ops.push(Op::Extend { slot: 0, it: IterSpec { kind: IterKind::Str, items: vec!["é€𝄞".repeat(add / 9 + 1)], slots: vec![], hint: None, panic_at: None } });
+                        ops.push(Op::Remove { slot: 0, idx: Idx::Raw(0), try_: false });
+                    }
+                }
+                ops.push(Op::Push { slot: 0, ch: '€', try_: false });
+                ops.push(Op::Pop { slot: 0, try_: false });
+                ops.push(Op::Compare { a: 0, b: 1 });
+                out.push(History { ops, plan: Plan::default() });
+            }
+        }
+    }
+    out
+}
+
+fn run_large_texts(prop: &'static str) -> Merged {
+    use crate::ir::History;
+    let list: Vec<History> = large_text_histories();
+    run_parallel(|shard| {
+        let mut m = Merged::new();
+        let mut cur = CurrentFile::open(prop, 64 + shard);
+        let mut i = shard;
+        while i < list.len() {
+            let h = &list[i];
+            let mut case = history_value(h);
+            case["giant_limit"] = serde_json::json!(256u64 << 20);
+            cur.record(&case);
+            let res = crate::history::run_history_with(h, 256 << 20, Some(prop));
+            let mut st = CaseStats::default();
+            let mut v = account(prop, h, &res, true, &mut st);
+            if let Some(v) = v.as_mut() {
+                v.case = case.clone();
+            }
+            m.absorb(st);
+            *m.counters.entry("large_text_histories".into()).or_insert(0) += 1;
+            if let Some(v) = v {
+                m.violation = Some(v);
+                break;
+            }
+            i += SHARDS;
+        }
+        cur.clear();
+        m
+    })
+}
+
 pub fn c01(tier: Tier, seed: u64) -> Verdict {
     let n = tier.pick(12_000, 400_000);
     let long = Profile { max_ops: tier.pick(40, 120), ..Profile::base() };
-    explore(
+    explore_with(
+        &|merged: &mut Merged| merged.merge(run_large_texts("C01")),
         "C01",
         tier,
         seed,
